@@ -2,7 +2,7 @@ SPECIFICATION TSpec
 CONSTANTS
   Keys = {"k1", "k2"}
   Algs = {"ES256", "ES384", "ES512", "EdDSA", "PS256", "PS384", "PS512"}
-  ClaimIds = {"cA", "cB", "cBad"}
+  ClaimIds = {"cA", "cB", "cC", "cBad"}
   InvalidIds = {"cBad"}
 INVARIANT Verdict
 CHECK_DEADLOCK FALSE
